@@ -123,6 +123,9 @@ def generate(rng, tier, mode="default"):
         for keys in itertools.product(range(3), repeat=ln):
             vals = [k * 16 + 16 + t for t, k in enumerate(keys)]
             out.append([hdr()] + build("a", vals) + ["a sort"] + probe()[:4] + ["END"])
+            if 2 <= ln <= 5:
+                # a comparator under which distinct elements tie: every element must survive the sort
+                out.append([hdr()] + build("a", vals) + ["a sort key"] + probe()[:4] + ["END"])
     # ---------------------------------------------------------------- fault plans
     for plan in ("0", "10", "01", "00"):
         out.append([hdr(plan=plan), "a add_last 1", "b add_last 2", "END"])
